@@ -114,6 +114,10 @@ func (pf *RangeProofAlice) Verify(ec elliptic.Curve, pk *paillier.PublicKey, NTi
 	q3 := new(big.Int).Mul(q, q)
 	q3 = new(big.Int).Mul(q, q3)
 
+	// c^-e mod N^2 below needs the ciphertext to be a unit modulo N^2
+	if !common.IsInInterval(c, pk.NSquare()) || new(big.Int).GCD(nil, nil, c, pk.NSquare()).Cmp(one) != 0 {
+		return false
+	}
 	if !common.IsInInterval(pf.Z, NTilde) {
 		return false
 	}
